@@ -9,7 +9,8 @@ import (
 )
 
 // C08: exactly one header commit, status before body.
-// case: (c08 (script n ...) (((pre ops) (post ops)) ...))   handler i runs pre, Next, post
+// case: (c08 (script n ...) (((pre ops) (post ops)) ...))   handler i runs pre, Next, post;
+//       ((pre ops) () stdK) = a net/http handler behind adaptor K (WrapHTTPHandlerFunc, WrapHTTPHandler, HTTPHandlerFunc, HTTPHandler, WrapHF, WrapH)
 // ops : (st z) (hd k v) (wr bytes) (fl) (he msg code) (rd url code) (ob)
 // obs : ((log (wh c)|(w bytes)|(f) ...) (obs (status length) ...)) | (panic)
 
@@ -56,6 +57,16 @@ func c08Gen(r *Rng, tier string, i int) Sx {
 	}
 	var hl []Sx
 	for _, h := range hs {
+		std := len(h[1]) == 0 && r.Chance(1, 5)
+		for _, op := range h[0] {
+			if op.Head() == "ob" {
+				std = false
+			}
+		}
+		if std {
+			hl = append(hl, L(LS(h[0]), L(), A(fmt.Sprintf("std%d", r.Intn(6)))))
+			continue
+		}
 		hl = append(hl, L(LS(h[0]), LS(h[1])))
 	}
 	return L(A("c08"), LS(script), LS(hl))
@@ -82,6 +93,25 @@ func wopRun(c *rux.Context, op Sx, obs *[]Sx) {
 	}
 }
 
+func wopRunStd(w http.ResponseWriter, rq *http.Request, op Sx) {
+	switch op.Head() {
+	case "st":
+		w.WriteHeader(op.List[1].Int())
+	case "hd":
+		w.Header().Set(op.List[1].Str(), op.List[2].Str())
+	case "wr":
+		_, _ = w.Write(op.List[1].Bytes())
+	case "fl":
+		w.(http.Flusher).Flush()
+	case "he":
+		http.Error(w, string(op.List[1].Bytes()), op.List[2].Int())
+	case "rd":
+		http.Redirect(w, rq, op.List[1].Str(), op.List[2].Int())
+	default:
+		panic("bad std writer op " + op.String())
+	}
+}
+
 func c08Exec(c Sx) (out Sx) {
 	xs := c.Lst()
 	var script []int
@@ -97,6 +127,27 @@ func c08Exec(c Sx) (out Sx) {
 		pre, post := h.Lst()[0].Lst(), h.Lst()[1].Lst()
 		if last && len(post) > 0 {
 			panic("c08: main handler has no post part")
+		}
+		if len(h.Lst()) > 2 { // a net/http handler behind one of the adaptors: it writes through the http.ResponseWriter it is given
+			hf := func(w http.ResponseWriter, rq *http.Request) {
+				for _, op := range pre {
+					wopRunStd(w, rq, op)
+				}
+			}
+			switch h.Lst()[2].Atom {
+			case "std0":
+				return rux.WrapHTTPHandlerFunc(hf)
+			case "std1":
+				return rux.WrapHTTPHandler(http.HandlerFunc(hf))
+			case "std2":
+				return rux.HTTPHandlerFunc(hf)
+			case "std3":
+				return rux.HTTPHandler(http.HandlerFunc(hf))
+			case "std4":
+				return rux.WrapHF(hf)
+			default:
+				return rux.WrapH(http.HandlerFunc(hf))
+			}
 		}
 		return func(c *rux.Context) {
 			for _, op := range pre {
